@@ -158,6 +158,11 @@ def rule_persistent(ctx, m):
         for name, meth in {k: v for c in b.mro() for k, v in c.methods.items()}.items():
             if name.startswith('fly_') or name in ('calc_starting_mass',):
                 roots.append(b.find_method(name))
+        # the context is constructed inside fly() through the CONTEXT_CLASS attribute (a dynamic call): its
+        # constructors run during every flight and may call back into the builder
+        for k in cc.mro():
+            if '__init__' in k.methods:
+                roots.append(k.methods['__init__'])
         flight = [f for f in closure(prog, roots) if f.cls is not None and f.cls in b.mro()]
         init_attrs = set()
         for c in b.mro():
@@ -370,5 +375,13 @@ def run(ctx):
     rule_persistent(ctx, m)
     rule_convergence(ctx, m)
     rule_handlers(ctx, m)
+    # R6: an out-of-envelope state is rejected by the performance model itself (the no-extrapolation rule of C06)
+    from .c06 import rule_no_extrapolation
+    sub = type(ctx)(ctx.prop, ctx.prog, ctx.tier)
+    rule_no_extrapolation(sub)
+    for o in sub.obligations:
+        o.rule = 'C17-R6'
+        ctx.obligations.append(o)
+    ctx.controls += sub.controls
     ctx.assumptions += ['bit-identity of numerics is not decided; only absence of carried state',
                         'the performance model and mission objects passed to fly() are not mutated by third parties']
